@@ -27,7 +27,7 @@ import os, sys, re, json, subprocess, tempfile, time, shutil
 from concurrent.futures import ThreadPoolExecutor
 
 GO = 'go1.26.8'
-PROBES = ['flood-after-disconnect', 'stop-during-connect', 'stop-vs-late-connect', 'stop-vs-inflight-accept', 'once-deadlock', 'same-id-storm', 'slow-subscriber', 'overlap-lock-cycle']
+PROBES = ['flood-after-disconnect', 'stop-during-connect', 'stop-vs-late-connect', 'stop-vs-inflight-accept', 'once-deadlock', 'same-id-storm', 'slow-subscriber', 'overlap-lock-cycle', 'stop-waits-teardown']
 
 
 def goenv(cgo):
